@@ -91,6 +91,9 @@ Definition gfire (s : gst) (e : mev) : gst * list gout :=
   match fsm (gs_state s) e with
   | None => (s, [])
   | Some st' =>
+      (* looplab/fsm: an event whose destination is the current state runs no leave/enter callbacks
+         (NoTransitionError, mapped to success by HandleApplicationEvent) *)
+      if st' =? gs_state s then (s, []) else
       let arm := (st' =? ST_Completing) || (st' =? ST_Completed) || (st' =? ST_Failed) || (st' =? ST_Rejected) in
       let pht := if st' =? ST_Completed then false else gs_phtimer s in
       let s1 := set_timers (set_state_g s st') pht arm in
@@ -165,8 +168,8 @@ Definition on_node (s : gst) (n k : N) : bool := existsb (fun p => (fst p =? n) 
 (* ---- operations ---- *)
 Inductive gop :=
 | GAddAsk (k tg : N) (r : res) (ph : bool)
-| GAllocate (k node : N) (full : bool)            (* tryNode success for a pending ask (placeholder or real) *)
-| GRecover (k tg : N) (r : res) (ph : bool) (node : N) (full : bool)   (* allocation already bound, sent by the shim *)
+| GAllocate (k node : N) (full : bool)            (* tryNode success for a pending ask (placeholder or real); an allocation
+                                                     recovered from the shim is GAddAsk followed by GAllocate *)
 | GSwap (real ph : N) (other : option N)          (* tryPlaceholderAllocate: same node / another node *)
 | GCancelLarger (real ph : N)                     (* tryPlaceholderAllocate: real ask larger than the placeholder *)
 | GRelease (k ty : N)                             (* release sent by the shim (confirmation or own initiative) *)
@@ -190,6 +193,8 @@ Definition release_step (s : gst) (k ty : N) : gst * list gout :=
           match find_obj sa (g_link p) with
           | None => (sa, eva, Some p)
           | Some r =>
+              (* the link of a placeholder always points to a real ask (tryPlaceholderAllocate) *)
+              if g_ph r then (sa, eva, Some p) else
               let '(sb, evb) := add_alloc_internal sa true r false in
               (set_objs sb (upd_obj (g_key r) (o_set_link 0) (gs_objs sb)), eva ++ evb, Some p)
           end
@@ -200,7 +205,9 @@ Definition release_step (s : gst) (k ty : N) : gst * list gout :=
       if ty =? TT_Timeout then (s1, ev1) else let '(s2, ev2) := remove_ask s1 k in (s2, ev1 ++ ev2)
   | Some p =>
       (* node and queue *)
-      let confirmed := if (ty =? TT_PlaceholderReplaced) && negb (g_link p =? 0) then find_obj s (g_link p) else None in
+      let confirmed := if (ty =? TT_PlaceholderReplaced) && negb (g_link p =? 0)
+                       then match find_obj s (g_link p) with Some r => if g_ph r then None else Some r | None => None end
+                       else None in
       let '(s2, announce) :=
         match confirmed with
         | Some r =>
@@ -324,16 +331,6 @@ Definition gstep (s : gst) (o : gop) : goutcome :=
           let '(s2, ev) := add_alloc_internal s1 false x full in
           GOk s2 (ev ++ [GNew k node])
       end
-  | GRecover k tg r ph node full =>
-      if existsb (fun x => (g_key x =? k) && (g_req x || g_alloc x)) (gs_objs s) then GRefused else
-      let x := mkG k tg r node ph true false false 0 true false in
-      let s1 := set_objs s (filter (fun y => negb (g_key y =? k)) (gs_objs s) ++ [x]) in
-      let s1 := if ph then set_pd s1 (pd_add tg (gs_pd s1)) else s1 in
-      let s1 := set_ledgers s1 ((node, k) :: gs_nodes s1) (ladd (gs_queue s1) r) (gs_user s1) (nadd (gs_nodeuse s1) node r) in
-      (* RecoverAllocationAsk: New -> Accepted; then AddAllocation *)
-      let '(s2, ev2) := if gs_state s1 =? ST_New then gfire s1 EvRun else (s1, []) in
-      let '(s3, ev3) := add_alloc_internal s2 false x full in
-      GOk s3 (ev2 ++ ev3 ++ [GNew k node])
   | GSwap rk pk other =>
       match find_obj s rk, find_obj s pk with
       | Some r, Some p =>
